@@ -1,8 +1,11 @@
-"""C13 — every snapshot satisfies the documented ISD shape.  Theorems: coq/Properties/C13.v.
+"""C13 — every snapshot satisfies the documented ISD shape.  Theorems: coq/Properties/C13.v (all eleven clauses of
+Spec/IsdShape.v for every document satisfying doc_wf and every time, no exception).
 Tie: M (Model/Isd.v) against ISD.from_model on style-heavy documents (every property, every unit, every element
-kind); S (Spec/IsdShape.v, one boolean per clause) is evaluated in Coq on the implementation's snapshots; the
-document parameters of the snapshot are compared with the source's here."""
-import logging, sys
+kind) and on documents built to exercise white-space handling, span pruning and ruby containers; S (one boolean per
+clause, strict: no property and no element excused) is evaluated in Coq on the implementation's snapshots; the
+hypothesis of the theorems (doc_wf) is evaluated in Coq on every generated source document; the document parameters
+and the ownership of the snapshot's objects are compared with the source's here."""
+import logging, re, sys
 import common as C
 import isdlit as L
 import docgen, isdcore, gen_tables
@@ -12,9 +15,109 @@ HEADER = ("From TT Require Import Model.Doc Gen.StyleTables Model.Isd Model.IsdC
 CLAUSES = ["no begin/end", "no animation steps", "no region references", "content model / regions hold one body",
            "style keys = applicable set", "all lengths rh/rw", "origin = position", "no display:none",
            "no empty text / childless span", "white space collapsed", "empty regions only with showBackground=always"]
+WS_ONLY = re.compile(r"^[\t\r\n ]*$")
+COLLAPSIBLE = re.compile(r"[\t\r\n]|  |^ | $")
+
+
+def focused_gen(rng):
+    """documents that exercise _prune_empty_spans, _process_lwsp and the ruby containers: white-space-only and empty text
+    nodes, spans nested four deep (also below rb / rt / rp) with xml:space alternating along the chain, ruby in half of the
+    paragraph children, little timing / display:none / region selection so that the structure reaches the snapshot"""
+    import ttconv.model as m
+
+    class Gen13(docgen.Gen):
+        WS = [" ", "  ", "\t", "\n", " \r\n ", "\t \n", "", ""]
+
+        def text(self, parent):
+            rng = self.rng; r = rng.random(); self.n += 1; k = self.n
+            if r < 0.45: t = rng.choice(self.WS)
+            elif r < 0.8: t = rng.choice([" \t a%d  \n b " % k, "c%d\t" % k, "\n\nd%d" % k, "  e%d" % k, "f%d  " % k, "g%d" % k, " "])
+            else: return docgen.Gen.text(self, parent)
+            parent.push_child(m.Text(self.d, t))
+
+        def span(self, depth, allow_nested=True):
+            rng = self.rng; e = m.Span(self.d); self.common(e, "s")
+            e.set_space(rng.choice([m.WhiteSpaceHandling.PRESERVE, m.WhiteSpaceHandling.DEFAULT, m.WhiteSpaceHandling.DEFAULT]))
+            for _ in range(rng.randint(0, 3)):
+                k = rng.random()
+                if k < 0.45: self.text(e)
+                elif k < 0.55:
+                    b = m.Br(self.d); b.set_id(self.uid("br")); e.push_child(b)
+                elif depth < 4: e.push_child(self.span(depth + 1))
+            return e
+
+        def wrap(self, cls, prefix):
+            e = docgen.Gen.wrap(self, cls, prefix)
+            if self.rng.random() < 0.9:           # keep most ruby children alive: one span with a solid token
+                sp = m.Span(self.d); sp.set_id(self.uid("s")); self.n += 1
+                sp.push_child(m.Text(self.d, self.rng.choice(["(", ")", " k%d" % self.n, "k%d  " % self.n, " \t(\n", "  m%d \n n " % self.n])))
+                e.push_child(sp)
+            return e
+
+        def ruby(self):
+            # inside most ruby containers nothing is timed, hidden or sent to another region (a ruby child that is pruned makes
+            # the whole snapshot raise, recorded under C01/C18), and every rtc has at least one rt
+            rng = self.rng; saved = (self.tp, self.dp, self.rrp)
+            if rng.random() < 0.85: self.tp = self.dp = self.rrp = 0.0
+            try:
+                e = m.Ruby(self.d); self.common(e, "ruby")
+                pat = rng.randrange(4)
+                if pat == 0: cs = [self.wrap(m.Rb, "rb"), self.wrap(m.Rt, "rt")]
+                elif pat == 1: cs = [self.wrap(m.Rb, "rb"), self.wrap(m.Rp, "rp"), self.wrap(m.Rt, "rt"), self.wrap(m.Rp, "rp")]
+                else:
+                    rbc = m.Rbc(self.d); self.common(rbc, "rbc")
+                    for _ in range(rng.randint(0, 2)): rbc.push_child(self.wrap(m.Rb, "rb"))
+                    def rtc():
+                        x = m.Rtc(self.d); self.common(x, "rtc")
+                        kids = [self.wrap(m.Rt, "rt") for _ in range(rng.randint(1, 3))]
+                        if rng.random() < 0.5: kids = [self.wrap(m.Rp, "rp")] + kids + [self.wrap(m.Rp, "rp")]
+                        x.push_children(kids)
+                        return x
+                    cs = [rbc, rtc()] + ([rtc()] if pat == 3 else [])
+                e.push_children(cs)
+                return e
+            finally:
+                self.tp, self.dp, self.rrp = saved
+
+    return Gen13(rng, style_density=0.03, anim_density=0.01, display_p=0.02, ruby_p=0.5, region_ref_p=0.1, timing_p=0.15)
+
+
+def source_stats(d, acc):
+    """input distribution, measured on the source document"""
+    import ttconv.model as m
+    def texts(e):
+        return [x for x in e.dfs_iterator() if isinstance(x, m.Text)]
+    def walk(e, chain):
+        if isinstance(e, m.Span):
+            ts = texts(e)
+            if all(WS_ONLY.match(x.get_text()) and x.parent().get_space() is not m.WhiteSpaceHandling.PRESERVE for x in ts):
+                acc["spans_that_prune_to_nothing"] += 1
+        if isinstance(e, m.Text):
+            t = e.get_text()
+            spaces = {x.get_space() for x in chain if isinstance(x, m.Span)}
+            nspans = sum(isinstance(x, m.Span) for x in chain)
+            if t and WS_ONLY.match(t): acc["ws_only_text"] += 1
+            if t == "": acc["empty_text"] += 1
+            if t and WS_ONLY.match(t) and nspans >= 2 and len(spaces) > 1: acc["ws_only_text_in_nested_spans_mixed_space"] += 1
+            if any(isinstance(x, m.Rp) for x in chain) and COLLAPSIBLE.search(t): acc["rp_text_with_collapsible_ws"] += 1
+            if any(isinstance(x, (m.Rt, m.Rp, m.Rb)) for x in chain) and nspans >= 2: acc["text_in_nested_span_below_ruby_child"] += 1
+        if isinstance(e, m.Ruby): acc["ruby:" + "/".join(type(c).__name__.lower() for c in e)] += 1
+        if isinstance(e, m.Rtc): acc["rtc:" + ("rp..rp" if len(e) and isinstance(list(e)[0], m.Rp) else "rt*%d" % min(len(e), 2))] += 1
+        for c in e: walk(c, chain + [e])
+    if d.get_body() is not None: walk(d.get_body(), [])
+
+
+def snapshot_stats(obj, acc):
+    import ttconv.model as m
+    kinds = set()
+    for r in obj.iter_regions():
+        for e in r.dfs_iterator(): kinds.add(type(e).__name__)
+    for k in ("Ruby", "Rp", "Rtc", "Rbc", "Span", "Br"):
+        if k in kinds: acc["snapshots_with_" + k.lower()] += 1
 
 
 def main():
+    from collections import Counter
     run = C.Run("C13", "proof")
     run.hygiene()
     sys.path.insert(0, C.SRC)
@@ -22,26 +125,32 @@ def main():
     if errors:
         run.violation("table translator failed closed: " + "; ".join(errors), dict(kind="translator", errors=errors), False)
         return run.finish()
-    ok, log = run.build(["Proofs/C13/OriginPosition.vo", "Model/IsdShapeCases.vo"], clean=(run.tier == "thorough"))
+    ok, log = run.build(["Proofs/C13/Summary.vo", "Model/IsdShapeCases.vo"], clean=(run.tier == "thorough"))
     proofs_ok = ok and run.theorems()
     if not ok: run.proof_log = log[-2500:]
     run.witnesses()
     logging.disable(logging.CRITICAL)
-    from ttconv.isd import ISD
 
-    ndocs = 240 if run.tier == "quick" else 5000
+    nbase, nfocus = (240, 160) if run.tier == "quick" else (5000, 2000)
+    ndocs = nbase + nfocus
     rng = run.rng
-    blocks, docs, nq, n_err, param_fail, seq_checked = [], {}, 0, 0, [], 0
+    blocks, docs, nq, n_err, param_fail = [], {}, 0, 0, []
+    src, snap = Counter(), Counter()
     nclauses = len(CLAUSES)
     for k in range(ndocs):
-        g = docgen.Gen(rng, style_density=(0.12 if k % 2 else 0.25), anim_density=0.03, display_p=0.04, ruby_p=0.2, region_ref_p=0.25)
+        if k < nbase:
+            g = docgen.Gen(rng, style_density=(0.12 if k % 2 else 0.25), anim_density=0.03, display_p=0.04, ruby_p=0.2, region_ref_p=0.25)
+        else:
+            g = focused_gen(rng)
         d = g.doc()
-        qs = docgen.query_times(rng, d, 8 if run.tier == "quick" else 14)
+        source_stats(d, src)
+        qs = docgen.query_times(rng, d, (8 if k < nbase else 5) if run.tier == "quick" else (14 if k < nbase else 8))
         items = []
         for t in qs:
             lit, obj = isdcore.snapshot(d, t)
             items.append(f"({L.qlit(t)}, {'None' if lit is None else '(Some ' + lit + ')'})")
-            if lit is None: n_err += 1; continue
+            if lit is None: n_err += 1; snap["raised:" + type(obj).__name__] += 1; continue
+            snapshot_stats(obj, snap)
             # document parameters equal the source's (C13 clause, checked on the Python objects)
             same = (obj.get_lang() == d.get_lang() and obj.get_cell_resolution() == d.get_cell_resolution() and
                     obj.get_px_resolution() == d.get_px_resolution() and obj.get_active_area() == d.get_active_area() and
@@ -51,21 +160,19 @@ def main():
             if not owned: param_fail.append((k, str(t), "an element of the snapshot is not owned by the snapshot"))
         nq += len(qs); docs[k] = (d, qs)
         defs = f"Definition d{k} := {L.doc_lit(d)}.\nDefinition q{k} : list (Q * option (list elem)) := [{'; '.join(items)}]."
-        slots = [f"cases_isd d{k} q{k}"] + [f"cases_clause {i} [p_Disparity] true q{k}" for i in range(nclauses)] + \
-                [f"cases_clause 5 [] true q{k}", f"cases_clause 9 [p_Disparity] false q{k}"]
-        blocks.append((k, defs, slots, [len(qs)] * len(slots)))
+        slots = [f"cases_isd d{k} q{k}"] + [f"cases_clause {i} [] false q{k}" for i in range(nclauses)] + [f"cases_wf d{k}"]
+        blocks.append((k, defs, slots, [len(qs)] * (1 + nclauses) + [2]))
     files = isdcore.write_shards("Cases_C13_", HEADER, blocks)
     bad, broken = isdcore.eval_shards(files)
     C.clean_cases("Cases_C13_")
     m_bad = bad.get(0, [])
     clause_bad = {i: bad.get(1 + i, []) for i in range(nclauses)}
-    strict_units = bad.get(1 + nclauses, []); strict_ws = bad.get(2 + nclauses, [])
+    wf_bad = bad.get(1 + nclauses, [])
     n_sbad = sum(len(v) for v in clause_bad.values())
-    run.log(f"{ndocs} documents, {nq} snapshots ({n_err} raised): model/code mismatches {len(m_bad)}, shape failures outside findings {n_sbad}, "
-            f"strict-unit failures {len(strict_units)}, strict white-space failures {len(strict_ws)}, parameter failures {len(param_fail)}, broken {len(broken)}")
-    if strict_units: run.known("disparity-not-computed", f"{len(strict_units)} snapshots carry a tts:disparity length that is not in rh/rw")
-    ws_only = [c for c in strict_ws if c not in clause_bad[9]]
-    if ws_only: run.known("rp-whitespace-not-collapsed", f"{len(ws_only)} snapshots")
+    run.log(f"{ndocs} documents ({nbase} style-heavy, {nfocus} white-space/ruby), {nq} snapshots ({n_err} raised): model/code mismatches {len(m_bad)}, "
+            f"shape failures {n_sbad}, documents outside doc_wf {len(wf_bad)}, parameter failures {len(param_fail)}, broken {len(broken)}")
+    run.log("  input distribution (source): " + ", ".join(f"{k}={v}" for k, v in sorted(src.items())))
+    run.log("  input distribution (snapshots): " + ", ".join(f"{k}={v}" for k, v in sorted(snap.items())))
 
     def replay(case):
         k, i = case; d, qs = docs[k]
@@ -82,6 +189,12 @@ def main():
     if param_fail:
         k, t, what = param_fail[0]
         run.violation(f"{what} (document {k}, t={t})", dict(kind="S-on-code", clause=what, document=L.doc_lit(docs[k][0]), time=t))
+    if wf_bad and not (first or param_fail):
+        k, which = wf_bad[0]
+        run.violation(f"the generator produced a document outside the hypothesis of the C13 theorems ({['doc_content_wf', 'doc_values_wf'][which]}): "
+                      f"harness defect, the theorems do not speak about this input (document {k})",
+                      dict(kind="generator", hypothesis=["doc_content_wf", "doc_values_wf"][which], spec="coq/Spec/IsdShape.v",
+                           document=L.doc_lit(docs[k][0])), found_input=False)
     if (m_bad or broken or not proofs_ok) and not (first or param_fail):
         what = []
         if not proofs_ok: what.append("theorems of coq/Properties/C13.v no longer check: " + getattr(run, "proof_log", "")[-500:])
@@ -92,12 +205,18 @@ def main():
                                             first=replay(m_bad[0]) if m_bad else None), found_input=False)
     run.cov.update(evaluations=nq, distinct_nontrivial=nq - n_err,
                    rule="style-heavy random documents (every style property in every unit on every element kind incl. ruby, initial values, "
-                        "animation) x boundary/epsilon/midpoint query times; each snapshot is compared with M and judged clause by clause by "
-                        "the shape checker in Coq. distinct_nontrivial = snapshots produced (not raising).",
-                   samples=[dict(document=L.doc_lit(docs[0][0])[:1500], times=[str(t) for t in docs[0][1]])],
-                   documents=ndocs, snapshots_raising=n_err, clause_failures={CLAUSES[i]: len(v) for i, v in clause_bad.items()},
-                   model_code_mismatches=len(m_bad))
-    run.assumptions += ["well-formed documents only", "rational numbers inside style values compared with relative tolerance 1e-9"]
+                        "animation) and documents built for white-space handling / span pruning / ruby containers (white-space-only and empty "
+                        "text, spans nested four deep with alternating xml:space, also below rb/rt/rp, ruby in half of the paragraph children) "
+                        "x boundary/epsilon/midpoint query times; each snapshot is compared with M and judged clause by clause, strictly, by the "
+                        "shape checker in Coq; doc_wf is evaluated in Coq on every source document. distinct_nontrivial = snapshots produced (not raising).",
+                   samples=[dict(document=L.doc_lit(docs[0][0])[:1500], times=[str(t) for t in docs[0][1]]),
+                            dict(document=L.doc_lit(docs[nbase][0])[:1500], times=[str(t) for t in docs[nbase][1]])],
+                   documents=ndocs, documents_style_heavy=nbase, documents_whitespace_ruby=nfocus, snapshots_raising=n_err,
+                   input_distribution_source=dict(sorted(src.items())), input_distribution_snapshots=dict(sorted(snap.items())),
+                   clause_failures={CLAUSES[i]: len(v) for i, v in clause_bad.items()},
+                   documents_outside_doc_wf=len(wf_bad), model_code_mismatches=len(m_bad))
+    run.assumptions += ["source documents satisfy doc_wf (evaluated in Coq on every generated document)",
+                        "rational numbers inside style values compared with relative tolerance 1e-9"]
     return run.finish(["harness/isdlit.py", "harness/gen_core.py"])
 
 
